@@ -36,6 +36,14 @@ def gen_multi(run, thorough):
         b = rng.choice(["bound", "bound", "bound", "0", "1", "10", str(max(1, dlen // 3))])
         out.append("M P=%s D=%s:%d:%d T=%d B=%s E=%s X=%d" % (",".join(params), rng.choice(["text", "rand", "mix"]), dlen, rng.randrange(1, 1 << 30), t, b,
                                                              rng.choice(["multi", "multi", "pool"]), rng.randrange(0, 2)))
+    # systematic family: an explicit size hint on the other side of the encoder's thresholds from the real
+    # input length, for one thread (plain stream inside the C function) and several
+    for q in (2, 4, 5, 9):
+        for lgwin in (19, 22):
+            for hint in (None, 1, 1 << 20, 1 << 26):
+                for t in (1, 2):
+                    params = ["1:%d" % q, "2:%d" % lgwin] + (["5:%d" % hint] if hint is not None else [])
+                    out.append("M P=%s D=text:150000:%d T=%d B=bound E=multi X=0" % (",".join(params), 7 + q, t))
     return out
 
 
@@ -140,7 +148,7 @@ def check(run):
             why = "reported success but the bytes do not decode to the input (%s)" % f["DEC"]
         elif f["RET"] == "-7":
             why = "second batch on the same work pool gave a different result"
-        elif f["RET"] != f["RRET"] and int(t["T"]) > 1 and f["PARAMSOK"] == "1":
+        elif f["RET"] != f["RRET"] and (f["PARAMSOK"] == "1" or int(t["T"]) == 1):
             why = "C ABI returned %s, the equivalent Rust call %s" % (f["RET"], f["RRET"])
         elif f["RET"] == "1" and f["RRET"] == "1" and f["SAME"] != "1":
             why = "C ABI bytes differ from the equivalent Rust call"
